@@ -441,3 +441,18 @@ transform:
     assert_eq!(String::from_utf8_lossy(transformed), "a");
   }
 }
+
+#[cfg(feature = "verif-hooks")]
+impl<L: Language> RuleCore<L> {
+  /// verification hook: (rule, constraints, cached kinds, registration)
+  pub fn verif_parts(
+    &self,
+  ) -> (
+    &Rule<L>,
+    &HashMap<String, Rule<L>>,
+    &Option<BitSet>,
+    &RuleRegistration<L>,
+  ) {
+    (&self.rule, &self.constraints, &self.kinds, &self.registration)
+  }
+}
